@@ -29,6 +29,8 @@ KERNELS = [
        self_ty='ChargerState', params=[('self', 'ChargerState')], ret='ChargerState'),
   dict(file=H+'model/station/charger_state.py', cls='ChargerState', fn='decrement_enqueued_vehicles', coq='cs_decrement_enqueued',
        self_ty='ChargerState', params=[('self', 'ChargerState')], ret='res ChargerState'),
+  dict(file=H+'model/station/charger_state.py', cls='ChargerState', fn='add_chargers', coq='cs_add_chargers',
+       self_ty='ChargerState', params=[('self', 'ChargerState'), ('charger_count', 'Z')], ret='ChargerState'),
   # ---- base stalls ---------------------------------------------------------------------------
   dict(file=H+'model/base.py', cls='Base', fn='has_available_stall', coq='base_has_available_stall',
        self_ty='Base', params=[('self', 'Base'), ('membership', 'Membership')], ret='bool'),
